@@ -63,6 +63,9 @@ BLIND = {  # did the owning check exist, unchanged, before the change was seen?
     'b11-C10': 'yes - caught (C10.R7 loaded-statistics variant, C09.R10)',
     'b11-C11': 'yes - caught (C11.R5 add table: scope order)',
     'b11-C17': 'yes - caught (C17.R2 / C17.R12 parameter laws for all-negative ranges; C04.R7)',
+    'b16-C01': 'yes - only ANALYSIS-ERROR (a vertical-optimisation table row forked on the token parameters); C01.R19 = C04.R16: SOFTMAX / LOGISTIC / TANH feeding a CONCATENATION with a wide-range second input - the fixed-range output must keep the kernel parameters',
+    'b16-C10': 'yes - missed by C10 (C03 / C04 / C05 / C08 sweeps reported: statistics of a runtime second operand missing); the operator sweep is part of C10 now (C10.R11)',
+    'b16-C14': 'yes - caught (C14.R1 effect analysis: the caller-owned calibration result reaches an in-place store)',
     'b14-C04': 'yes - only ANALYSIS-ERROR (array comparisons / np.all not modelled: the plan forked); modelled now, and C04.R15 runs a FULLY_CONNECTED with a zero weight channel, tiny activations and an ordinary bias: the weight scale must stay max(|min|,|max|,1e-4)/127 of the true range',
     'b14-C11': 'yes - caught (C11.R5 one-step table of add_quantization_config: a same-operator rule with another algorithm must replace, not append)',
     'b14-C17': 'yes - caught (C17.R2 = C04.R7: the scale is no longer the reference rational function - an extra float32 rounding inside the formula)',
